@@ -246,7 +246,7 @@ Fixpoint exact_from (i : Z) (ws : list Z) (res : list Z) : bool :=
    3  newScheduler: RR for one endpoint, for fewer than two non-zero weights, EDF weights in
       0..65535 otherwise (float scaling itself: correspondence only)
    4  weight: 0 before the first report, after the expiration period and during the
-      blackout period *)
+      blackout period; otherwise the value qps/(util+eps/qps*penalty) of the latest report *)
 Definition has_max (ws : list Z) : bool :=
   existsb (fun w => w =? maxWeight) ws && (zlen ws <=? budget).
 
@@ -319,7 +319,10 @@ Definition clause_wt (i : Z) (e : epw) (now expir blackout : Z) (o : word) : lis
   [(4, i,
     if (e_last e =? 0) || (now - e_last e >=? expir) ||
        (negb (blackout =? 0) && ((e_since e =? 0) || (now - e_since e <? blackout)))
-    then word_eqb o [0; 0] else true)].
+    then word_eqb o [0; 0]
+    (* otherwise: the value computed from the latest non-empty report (expiration and blackout
+       count from the LATEST report / the first report of the current run of reports) *)
+    else word_eqb o (fdec (e_val e)))].
 
 Definition clause_op (i : Z) (e : epw) (op : opc) (o : word) : list (Z * Z * bool) :=
   match op with
